@@ -935,4 +935,28 @@ func c06(r *core.Run) {
 			o.Fail(p.Pos(g.Pos()), "the index lookup is not taken under the index key")
 		}
 	})
+
+	r.Check("D3/K9/options-forwarded-to-every-node", "cache.New builds every node with the caller's options (expiry, not-found expiry): each NewNode call receives the same barrier, stat, not-found error and the opts parameter", func(o *core.O) {
+		f := p.Func(cachePkg, "", "New")
+		if !o.Need(f != nil, "cache.New") {
+			return
+		}
+		r.Fn(core.FuncName(f))
+		cs := core.Calls(f, core.CallTo("lib/store/cache.NewNode"))
+		o.Site(len(cs), core.FuncName(f))
+		if len(cs) == 0 {
+			o.Fail(p.Pos(f.Pos()), "cache.New builds no node")
+		}
+		np := len(f.Params)
+		for _, c := range cs {
+			args := core.Args(c)
+			// NewNode(rds, barrier, st, errNotFound, opts...): the last four mirror New's last four parameters
+			for k := 1; k <= 4; k++ {
+				if len(args) < 5 || !core.ParamAt(f, np-k)(args[len(args)-k]) {
+					o.Fail(p.InstrPos(c), "a node is built without New's parameter #%d (%s): it runs with defaults instead of the configured value", np-k, f.Params[np-k].Name())
+				}
+			}
+		}
+	})
+
 }
